@@ -30,6 +30,13 @@ var valSets = []valSet{
 	{"4x1|3,1,1,1", []uint64{1, 1, 1, 1}, []int{0, 1, 2, 3}, 0, []uint64{3, 1, 1, 1}},
 	{"1,1,1,4|2,2,2,1", []uint64{1, 1, 1, 4}, []int{3, 0, 1, 2}, 0, []uint64{2, 2, 2, 1}},
 	{"3,3,2,1,1|1,1,1,1,1", []uint64{3, 3, 2, 1, 1}, []int{0, 1, 2, 3, 4}, 0, []uint64{1, 1, 1, 1, 1}},
+	// wide arithmetic: N = 2^63 (the boundary of the repaired overflow), tallies far above 2^32
+	{"4x2^61", []uint64{1 << 61, 1 << 61, 1 << 61, 1 << 61}, []int{0, 1, 2, 3}, 0, nil},
+	{"2^62,2^61,2^61,2^60,2^60", []uint64{1 << 62, 1 << 61, 1 << 61, 1 << 60, 1 << 60}, []int{0, 1, 2, 3, 4}, 0, nil},
+	// f = 0: no Byzantine validator allowed, quorum = everybody (N=1,2) or two of three
+	{"1x1", []uint64{1}, []int{0}, 0, nil},
+	{"2x1", []uint64{1, 1}, []int{0, 1}, 0, nil},
+	{"3x1", []uint64{1, 1, 1}, []int{0, 1, 2}, 0, nil},
 }
 
 func sumU(xs []uint64) uint64 {
@@ -140,7 +147,7 @@ func genScenario(r *lib.RNG, thorough bool) *sim {
 					ok = false
 				}
 			}
-			if ok && r.Chance(3, 4) {
+			if ok && r.Chance(9, 10) { // mostly the maximum: Byzantine power exactly f is the boundary
 				byz = append(byz, c)
 			}
 		}
